@@ -5806,11 +5806,8 @@ class CodegenCtx:
             assert action.into_storage.holds_a(OutputStorageType.STR)
             # Check if we need to allocate
             if ProgramData.do(ProgramFlag.ALLOCATE_STR_SPACE_DYNAMIC_ON_DEMAND) and (action.into_storage.default_value is None or ProgramData.do(ProgramFlag.DELETE_STRING_FREE_MEMORY)):  # if it wasn't None it'd be allocated in the start() (but delete may have freed it since)
-                if is_start and action.into_storage.default_value is None:
-                    # if we're at the start, and there's no default value, and on demand is in effect, there's no possible way for state->c to have any value other than NULL
-                    result.add(f"state->c.{action.into_storage.name} = malloc({action.into_storage.str_size});")
-                else:
-                    result.add(f"if (!state->c.{action.into_storage.name}) state->c.{action.into_storage.name} = malloc({action.into_storage.str_size});")
+                # (also among the start actions: an earlier start action may have assigned the string already)
+                result.add(f"if (!state->c.{action.into_storage.name}) state->c.{action.into_storage.name} = malloc({action.into_storage.str_size});")
             if len(action.value_expr) > action.into_storage.effective_string_size():
                 raise IllegalDFAStateError("Literal is too long for output", action)
             result.add(self._generate_set_string(action.value_expr, action.into_storage))
